@@ -178,7 +178,11 @@ Lemma op_shift_same_shape d s t vs : same_shape s (fst (op_shift d s t vs)).
 Proof. unfold op_shift. apply set_links_same_shape. Qed.
 
 Lemma lst_shift_same_shape d s ts vs : same_shape s (fst (lst_shift d s ts vs)).
-Proof. unfold lst_shift. apply seq_calls_same_shape. intros s' c. apply op_shift_same_shape. Qed.
+Proof.
+  unfold lst_shift, all_or_nothing. destruct (snd (lst_shift_seq d s ts vs)) as [[]| |c]; cbn [fst];
+    [|apply same_shape_refl..].
+  unfold lst_shift_seq. apply seq_calls_same_shape. intros s' c. apply op_shift_same_shape.
+Qed.
 
 Lemma ch_remove_same_shape s o c : same_shape s (fst (ch_remove s o c)).
 Proof.
@@ -343,13 +347,13 @@ Proof. intros H1 H2. unfold andthen. destruct (snd r) as [[]| |c]; auto. Qed.
 Lemma pubs_same_shape s s' vs : same_shape s s' -> pubs s vs -> pubs s' vs.
 Proof. intros Sh P. eapply pubs_frame; [|exact P]. intro x. apply same_shape_pub. exact Sh. Qed.
 
-Theorem new_task_rel_inv s i nm p ch su pr :
+Theorem new_task_rel_seq_inv s i nm p ch su pr :
   WF s -> (forall p', p = Some p' -> pub s p') ->
   (forall c, ch = Some c -> pubs s c) -> pubs s su -> pubs s pr ->
   let s0 := alloc s (mkT i None [] [] [] None false None nm None) in
-  WF (fst (new_task_rel s i nm p ch su pr)) /\ same_shape s0 (fst (new_task_rel s i nm p ch su pr)).
+  WF (fst (new_task_rel_seq s i nm p ch su pr)) /\ same_shape s0 (fst (new_task_rel_seq s i nm p ch su pr)).
 Proof.
-  intros W Pp Pch Psu Ppr. cbv zeta. unfold new_task_rel. cbv zeta.
+  intros W Pp Pch Psu Ppr. cbv zeta. unfold new_task_rel_seq. cbv zeta.
   set (T := mkT i None [] [] [] None false None nm None).
   set (s0 := alloc s T). set (t := length (hp s)).
   assert (W0 : WF s0) by (apply alloc_task_WF; exact W).
@@ -387,6 +391,21 @@ Proof.
   - eapply same_shape_trans; [apply P3|apply set_links_same_shape].
 Qed.
 
+(* the constructor: the sequence of setters, undone as a whole when one of them raises *)
+Theorem new_task_rel_inv s i nm p ch su pr :
+  WF s -> (forall p', p = Some p' -> pub s p') ->
+  (forall c, ch = Some c -> pubs s c) -> pubs s su -> pubs s pr ->
+  WF (fst (new_task_rel s i nm p ch su pr)) /\ shape s (fst (new_task_rel s i nm p ch su pr)).
+Proof.
+  intros W Pp Pch Psu Ppr.
+  destruct (new_task_rel_seq_inv s i nm p ch su pr W Pp Pch Psu Ppr) as [W1 Sh1].
+  unfold new_task_rel, all_or_nothing.
+  destruct (snd (new_task_rel_seq s i nm p ch su pr)) as [[]| |c]; cbn [fst].
+  - split; [exact W1|]. eapply shape_trans; [apply alloc_shape|]. apply same_shape_shape. exact Sh1.
+  - split; [exact W|apply shape_refl].
+  - split; [exact W|apply shape_refl].
+Qed.
+
 Lemma pub_args_new_task_rel s i nm p ch su pr :
   pub_args s (NewTaskRel i nm p ch su pr) = true ->
   (forall p', p = Some p' -> pub s p') /\ (forall c, ch = Some c -> pubs s c) /\ pubs s su /\ pubs s pr.
@@ -418,7 +437,6 @@ Proof.
   - apply new_task_shape.
   - destruct (pub_args_new_task_rel s i nm p ch su pr) as (Pp & Pch & Psu & Ppr).
     { simpl. repeat (apply andb_true_iff; split); assumption. }
-    eapply shape_trans; [apply alloc_shape|]. apply same_shape_shape.
     apply (new_task_rel_inv s i nm p ch su pr W Pp Pch Psu Ppr).
   - apply new_wbs_shape.
   - apply same_shape_shape. apply set_parent_same_shape; [exact W|apply okobj_lt; assumption|apply okopt_range; assumption].
@@ -658,6 +676,10 @@ Theorem C15_atomic_wf_all :
   forall s o, WF s -> AtomicLoops.atomic_op_wf o = true -> snd (step s o) <> OK -> fst (step s o) = s.
 Proof. exact (AtomicLoops.C15_atomic_wf ch_remove_WF_all). Qed.
 
+(* every one of the 24 operation kinds, hypothesis WF s only *)
+Theorem C15_atomic_every_op : forall s o, WF s -> snd (step s o) <> OK -> fst (step s o) = s.
+Proof. intros s o W. apply C15_atomic_wf_all; [exact W|apply AtomicLoops.atomic_op_wf_all]. Qed.
+
 Theorem remove_all_never_raises_wf :
   forall s, WF s ->
     (forall o ids, snd (ch_remove_all s o ids) = OK) /\
@@ -678,3 +700,7 @@ Definition c01_ops : list op :=
 Theorem C15_atomic_reach ops o : pub_run init ops ->
   AtomicLoops.atomic_op_wf o = true -> snd (step (run init ops) o) <> OK -> fst (step (run init ops) o) = run init ops.
 Proof. intro P. apply C15_atomic_wf_all. apply reach_WF. exact P. Qed.
+
+Theorem C15_atomic_reach_every_op ops o : pub_run init ops ->
+  snd (step (run init ops) o) <> OK -> fst (step (run init ops) o) = run init ops.
+Proof. intro P. apply C15_atomic_every_op. apply reach_WF. exact P. Qed.
